@@ -7,6 +7,9 @@ import suites as SU
 from props import _relational
 
 PID = "C07"
+# util.f_measure is also REGENERATED from the source (harness/translate/scalars.py -> lean/MirGen/Scalars.lean); Props/C07_Gen.lean restates
+# the property on the generated definition through C06_Gen.f_measure_eq_model
+TRANSLATOR_PARTS = ["scalars"]
 _here = os.path.dirname(os.path.abspath(__file__))
 _props = os.path.join(os.path.dirname(os.path.dirname(_here)), "lean", "MirProofs", "Props")
 LEAN_MODULES = ["MirProofs.Props.C07"] + sorted(
